@@ -53,6 +53,7 @@ def configs(tier):
 def shards(tier, seed):
     out = [dict(cfg=c, max_states=bounds(tier, seed)["max_states"]) for c in configs(tier)]
     out.sort(key=lambda s: -len(s["cfg"]["chunks"]) * s["cfg"].get("batch_blocks", 1))
+    out += [dict(interference=i) for i in range(len(interference_pairs()))]
     return out
 
 
@@ -69,7 +70,7 @@ def run_cfg(res, cfg, max_states):
         res.outcomes[f"error:{type(e).__name__}"] += 1
         res.violate("build-error", cfg, dict(exc=type(e).__name__, msg=str(e)[:200]), "a graph", tags=dict(tags, kind="error"), size=size)
         return
-    before = {k: graphx.digest(v) for k, v in user.items()}
+    before = user.pop("_before")  # digests taken BEFORE the flox call (graph construction must not touch arguments either)
     g = graphx.TaskGraph(colls)
     counters = collections.Counter()
     try:
@@ -116,9 +117,72 @@ def run_cfg(res, cfg, max_states):
         res.violate("task-error", cfg, dict(exc=type(e).__name__, msg=str(e)[:300]), "tasks execute", tags=dict(tags, kind="error", exc=type(e).__name__), size=size)
 
 
+def run_interference(res, cfgA, cfgB):
+    """A graph, once built, is a closed value: building and computing ANOTHER graph that shares argument objects (the same
+    user Aggregation object, the same arrays) must not change what the tasks of the first graph return - neither for
+    the in-process graph nor for a copy that was pickled before the second call."""
+    import cloudpickle
+    import dask
+
+    tags = dict(kind2="interference", func=cfgA["func"], then=cfgB["func"])
+    try:
+        collsA, userA, _ = graphcfg.build(cfgA)
+        userA.pop("_before")
+        r0 = dask.compute(*collsA, scheduler="sync")
+        shipped = cloudpickle.dumps(collsA)
+        collsB, userB, _ = graphcfg.build(cfgB)
+        dask.compute(*collsB, scheduler="sync")
+    except e1.REFUSALS as e:
+        res.outcomes[f"refused:{type(e).__name__}"] += 1
+        return
+    d0 = graphx.digest([np.asarray(x) for x in r0])
+    g = graphx.TaskGraph(collsA)
+    try:
+        r = graphx.explore_orders(g, max_states=20000)
+    except graphx.Finding as f:
+        res.violate("task-" + f.kind, dict(cfg=cfgA, then=cfgB, task=str(f.task)), f.detail, "pure task", tags=dict(tags, kind=f.kind), size=50)
+        return
+    res.states += r["states"]
+    res.transitions += r["transitions"]
+    res.evaluations += r["transitions"]
+    res.compared += r["transitions"]
+    again = dask.compute(*collsA, scheduler="sync")
+    there = dask.compute(*cloudpickle.loads(shipped), scheduler="sync")
+    d1 = graphx.digest([np.asarray(x) for x in again])
+    d2 = graphx.digest([np.asarray(x) for x in there])
+    res.transitions += 2
+    if d1 != d0 or d2 != d0:
+        res.violate("graph-changed-by-later-call", dict(cfg=cfgA, then=cfgB), dict(recomputed_here=again, shipped_copy=there),
+                    dict(first_compute=r0), tags=dict(tags, kind="interference", here=d1 != d0, shipped=d2 != d0), size=50)
+        return
+    res.nontrivial += 1
+    res.outcomes["ok"] += 1
+    res.sample(dict(leg="interference", first=cfgA, then=cfgB, ideals=r["states"]))
+
+
+def interference_pairs():
+    NAN = graphcfg.NAN
+    base = dict(kind="reduce", method="map-reduce", dtype="float64", engine="numpy", labels=[0, 1, 0, NAN, 1, 0], chunks=[2, 2, 2], batch_blocks=1,
+                expected=[0, 1, 2])
+    out = []
+    for ua in ("sumsq", "range"):
+        a = dict(base, func=ua, user_agg=ua, fill_value=-1)
+        out.append((a, dict(a, fill_value=-99)))
+        if ua == "sumsq":  # ("range" uses +-inf fills, which are undefined for integers: a user error, not flox's)
+            out.append((a, dict(a, dtype="int64", fill_value=-7)))
+        out.append((a, dict(a, method="cohorts", fill_value=5)))
+    out.append((dict(base, func="nanmax", fill_value=-1), dict(base, func="nanmax", fill_value=-99, dtype="int64")))
+    out.append((dict(base, func="var", fill_value=-1, finalize_kwargs=dict(ddof=0)), dict(base, func="var", fill_value=-1, finalize_kwargs=dict(ddof=1))))
+    return out
+
+
 def run_shard(shard):
     e1.reset_flox_caches()
     res = Result()
+    if shard.get("interference") is not None:
+        a, b = interference_pairs()[shard["interference"]]
+        run_interference(res, a, b)
+        return res
     run_cfg(res, shard["cfg"], shard["max_states"])
     return res
 
@@ -128,6 +192,10 @@ def replay(payload):
     c = payload["case"]
     cfg = c.get("cfg", c)
     from mc.runner import unjson_float
+
+    if "then" in c:
+        run_interference(res, dict(cfg, labels=unjson_float(cfg["labels"])), dict(c["then"], labels=unjson_float(c["then"]["labels"])))
+        return res
 
     cfg = dict(cfg, labels=unjson_float(cfg["labels"]))
     run_cfg(res, cfg, 400000)
